@@ -127,3 +127,7 @@ Definition index_z {A} (l : list A) (i : Z) : option A :=
 
 Lemma nth_opt_nth_error {A} (l : list A) n : nth_opt l n = nth_error l n.
 Proof. revert n; induction l; destruct n; cbn; auto. Qed.
+
+(** UTF-8 length of a scalar value (byte offsets of [char_indices]). *)
+Definition utf8_len (c : Z) : Z :=
+  if c <? 128 then 1 else if c <? 2048 then 2 else if c <? 65536 then 3 else 4.
